@@ -106,6 +106,10 @@ def job(arg):
                         if fast and not (decreasing(seq) and kind in ("nonoverlapping", "overlapping-decreasing")):
                             continue  # documented precondition of the fast variant
                         if fast and kind != "nonoverlapping":
+                            # decreasing but overlapping input: the documented precondition of the fast variant holds; its own obligation
+                            outf = AP.renormalize(ctx, list(seq), functional=functional, fast=True)
+                            if fin(outf) and tot(outf) != tot(seq):
+                                rec("renormalize/sum[fast,overlapping-decreasing-input]", seq=seq, out=outf, variant="functional=%s,fast=True" % functional)
                             continue
                         out = AP.renormalize(ctx, list(seq), functional=functional, fast=fast)
                         tag = "functional=%s,fast=%s" % (functional, fast)
@@ -143,6 +147,24 @@ def job(arg):
                     small = F(numpy.finfo(dtype).smallest_normal) * (1 << (numpy.finfo(dtype).nmant + 1))
                     if any(0 < abs(F(u) * F(v)) < small for u in a + b for v in a + b):
                         continue
+                if what == "multiply":
+                    # size limits: when the exact product fits the allowed number of words (small integers, leading zero
+                    # words, exactly cancelling leading words) the limited product must still be that value
+                    v1, v2 = dtype(int(rng.integers(1, 30))), dtype(int(rng.integers(1, 30)))
+                    pad = int(rng.integers(1, 4))
+                    shape = int(rng.integers(0, 3))
+                    if shape == 0:
+                        az = [dtype(0)] * pad + [v1]
+                    elif shape == 1:
+                        az = [dtype(2), dtype(-2)][: 2 * (pad > 0)] + [dtype(0)] * (pad - 1) + [v1]
+                    else:
+                        az = [v1] + [dtype(0)] * pad
+                    for functional in (False, True):
+                        for kk in (1, 2):
+                            for args, nm in (((list(az), [v2]), "a*b"), (([v2], list(az)), "b*a")):
+                                outk = AP.multiply(ctx, *args, functional=functional, size=kk)
+                                if fin(outk) and (len(outk) > kk or tot(outk) != F(v1) * F(v2)):
+                                    rec("multiply/size-limit-exact", a=args[0], b=args[1], out=outk, variant="functional=%s,size=%d,%s" % (functional, kk, nm))
                 for functional in (False, True):
                     tag = "functional=%s" % functional
                     if what == "add":
@@ -166,9 +188,9 @@ def job(arg):
 
 
 NAMES = {
-    "renormalize": ("renormalize/sum", "renormalize/length", "renormalize/normal-form-after-two-passes[decreasing-input]", "renormalize/normal-form-after-two-passes[unordered-input]", "renormalize/size-limit"),
+    "renormalize": ("renormalize/sum", "renormalize/length", "renormalize/normal-form-after-two-passes[decreasing-input]", "renormalize/normal-form-after-two-passes[unordered-input]", "renormalize/size-limit", "renormalize/sum[fast,overlapping-decreasing-input]"),
     "add": ("add/exact", "subtract/exact"),
-    "multiply": ("multiply/one-ulp", "square/one-ulp"),
+    "multiply": ("multiply/one-ulp", "square/one-ulp", "multiply/size-limit-exact"),
 }
 
 
